@@ -208,6 +208,8 @@ def judge(out, m, names, kind, kept, P, sel):
                     probs.append(f"level {lv} box {k}: min/max rows are not the extrema of the written data")
             if len(probs) > 8:
                 return probs
+    if not probs:
+        probs += ["format: " + x for x in refmodel.conform(out)]
     return probs
 
 
